@@ -397,6 +397,72 @@ int main(int argc, char **argv)
 		}
 		return 0;
 	}
+	if (!strcmp(mode, "fields")) {
+		/* systematic field inflation of small inputs: every offset first..count, width 2 and 4,
+		 * both byte orders, boundary values; loaded and tested by path (depackers run) */
+		static const uint32_t vals[] = { 0, 1, 0x7f, 0x80, 0xff, 0x100, 0x7fff, 0x8000, 0xffff, 0x10000,
+						 0x7fffffff, 0x80000000u, 0xfffffff0u, 0xffffffffu };
+		int i;
+		long off, checked = 0;
+		for (i = 0; i < nfiles; i++) {
+			long n = 0;
+			unsigned char *in = read_file(argv[6 + i], &n);
+			const char *ext = strrchr(argv[6 + i], '.');
+			char fpath[4096];
+			if (!in)
+				continue;
+			snprintf(fpath, sizeof(fpath), "%s/fld-%d%s", scratch, (int)getpid(), ext ? ext : "");
+			printf("fieldfile %s\n", argv[6 + i]);
+			for (off = first; off <= count && off + 2 <= n; off++) {
+				int w, be, vi;
+				for (w = 2; w <= 4; w += 2) {
+					if (off + w > n)
+						continue;
+					for (be = 0; be < 2; be++) {
+						for (vi = 0; vi < (int)(sizeof(vals) / sizeof(vals[0])); vi++) {
+							unsigned char save[4];
+							struct xmp_test_info ti;
+							xmp_context c;
+							FILE *f;
+							int j;
+							if (w == 2 && vals[vi] > 0xffff)
+								continue;
+							memcpy(save, in + off, w);
+							for (j = 0; j < w; j++) {
+								int sh = be ? 8 * (w - 1 - j) : 8 * j;
+								in[off + j] = (unsigned char)(vals[vi] >> sh);
+							}
+							printf("field %ld %d %d %d\n", off, w, be, vi);
+							fflush(stdout);
+							f = fopen(fpath, "wb");
+							if (f) {
+								fwrite(in, 1, n, f);
+								fclose(f);
+							}
+							alarm(60);
+							c = xmp_create_context();
+							xmp_test_module(fpath, &ti);
+							if (xmp_load_module(c, fpath) == 0) {
+								if (xmp_start_player(c, 8000, 0) == 0) {
+									xmp_play_frame(c);
+									xmp_end_player(c);
+								}
+								xmp_release_module(c);
+							}
+							xmp_free_context(c);
+							alarm(0);
+							memcpy(in + off, save, w);
+							checked++;
+						}
+					}
+				}
+			}
+			unlink(fpath);
+			free(in);
+		}
+		printf("fieldsdone %ld\n", checked);
+		return 0;
+	}
 	if (!strcmp(mode, "prefix")) {
 		/* every prefix length 0..count of every file, as an exactly sized heap image through
 		 * the memory and callback entry points of test and load: a read one byte past the
